@@ -87,6 +87,7 @@ type Ctx struct {
 	viewResult bool           // the slice being created is a view into a ghost stream array
 	frameTop string           // allocation horizon used by loop frame conditions
 	skipFrameInit bool
+	loopEntryEnv map[int]*CEnv // per loop ordinal: contract environment over the state in which the loop was entered
 	loopHeadEnv map[int]*CEnv // per loop ordinal: contract environment over the state at the head of the current iteration
 	edgeConds []edgeCond // path conditions of the CFG edges of the root function (dead-edge diagnostic)
 	loopTop  map[int]string   // loop header -> allocation horizon at the loop head
